@@ -230,6 +230,23 @@ def _apply_op(op, root, node, model, labels):
             rnode, _ = mat.node_at(node, model, path)
             arg = plain_arg(rnode, new)
             labels.add("op:rebind_to_data")
+            if rspec["k"] == "ref" and op["int"] % 2 == 1 and hasattr(root, "_buffer"):
+                # the value is an object living in ANOTHER buffer - the same object every time a slot of this target
+                # class is rebound this way in the case: each slot must get an independent copy of its current value
+                import copy as _copy
+
+                pool = root._buffer.__dict__.setdefault("_vf_foreign_objects", {})
+                tnode = rnode.kids[0]
+                if tnode.cls.__name__ not in pool:
+                    fbuf = type(root._buffer)(capacity=64, context=root._buffer.context)
+                    fobj = sut(tnode.cls, arg, _buffer=fbuf)
+                    if is_raised(fobj):
+                        return fobj
+                    pool[tnode.cls.__name__] = (fobj, _copy.deepcopy(new))
+                else:
+                    labels.add("op:rebind_to_same_foreign_object_again")
+                arg, new = pool[tnode.cls.__name__][0], _copy.deepcopy(pool[tnode.cls.__name__][1])
+                labels.add("op:rebind_to_foreign_object")
         parent = sut(reach, root, node, path[:-1], op["via"], op["li"])
         if is_raised(parent):
             return parent
